@@ -40,7 +40,7 @@ CHECKS.update({
     note='Harmonic index of periodic sources bounded by 4; fundamental above twice the resolution; special values 0 / inf / w=0 as explicit cases; a second conversion with another resolution and the list wrapper transform(circuit, w=[...]) are checked entry by entry.' + COMMON_NOTE, ref='DESIGN.md §3 C07'),
  'C08': dict(technique='symbolic execution of the real time functions (mod as contract stub, comparison forks) + exact closed-form integration; identities decided by normal form / z3 over Q(j)(A, e^{j phi}, offset, T, pi)',
     text='Bounded symbolic verification: the piecewise description of each built-in waveform is extracted by executing its own time function on a symbolic instant; the true Fourier coefficient is computed from it by exact integration and compared as a polynomial identity with amplitude(n), phase(n), a(n), b(n), c(n), c(-n) of the real fourier_series objects for every harmonic order up to the bound, for all amplitudes, phases, offsets and periods; lookup by type name is asserted.',
-    note='Harmonic orders 0..12 (quick) / 0..400 (thorough); array sampling of the time functions with np.vectorize's output-type inference modelled; pi is a free transcendental atom (sound and complete for identities with rational coefficients); Parseval / mean-square convergence (an infinite sum) is not discharged.', ref='DESIGN.md §3 C08'),
+    note='Harmonic orders 0..12 (quick) / 0..400 (thorough); array sampling of the time functions with np.vectorize output-type inference modelled; pi is a free transcendental atom (sound and complete for identities with rational coefficients); Parseval / mean-square convergence (an infinite sum) is not discharged.', ref='DESIGN.md §3 C08'),
  'C09': dict(technique=TECH + '; polar contract stub for abs/angle; symbolic ordering and coincidence of frequencies',
     text='Bounded symbolic verification of frequency_components, FrequencyDomainSolution and TimeDomainSolution with symbolic source frequencies, w_max, time and values: all orderings / coincidences of the frequencies and all gate regions are explored; the analysed frequency list equals an independent list; each spectral line satisfies the tableau at its frequency (periodic sources contribute their true harmonic); the time functions equal sum_k Re(X_k e^{j w_k t}); two-sided spectra must be X_0, X_k/2, conj(X_k)/2; sources within the frequency resolution of each other must not be counted twice. Two genuine defects are recorded as known findings.',
     note='At most 3 harmonics per periodic source below w_max; RC / RL (thorough: also RLC) circuits with 1-2 sources; KCL at every instant and superposition in the time domain are mathematical consequences of the discharged statements.' + COMMON_NOTE, ref='DESIGN.md §3 C09'),
